@@ -434,3 +434,291 @@ func ruleStoreOutsideNilGuard(c *Ctx) {
 		})
 	}
 }
+
+func init() {
+	registerRule("decode-into-kept", 3, "a decoder does not decode into a field of its receiver and then overwrite the whole receiver: what was decoded is thrown away", ruleDecodeIntoKept)
+	registerRule("copy-has-room", 1, "copy is not given a destination made with length zero (it copies min(len(dst), len(src)) elements, that is none)", ruleCopyHasRoom)
+	registerRule("entry-params-used", 10, "every exported Expand*/Resolve* entry point uses each of its parameters (an options or root argument that is dropped means another entry point's defaults are silently used)", ruleEntryParamsUsed)
+	registerRule("loaded-doc-any-json", 1, "a loaded document is decoded into an interface{}: any JSON value (array, scalar, null) is a document a pointer can designate", ruleLoadedDocAnyJSON)
+}
+
+// ruleDecodeIntoKept (C01): in a method reachable from UnmarshalJSON, a call that is handed the address of a field
+// of the receiver (json.Unmarshal(data, &s.F)) is not followed by an unconditional `*s = other`.
+func ruleDecodeIntoKept(c *Ctx) {
+	const rule = "decode-into-kept"
+	for _, fd := range c.reachableFrom("UnmarshalJSON", "GobDecode") {
+		recv := c.recvObj(fd)
+		if recv == nil {
+			continue
+		}
+		fn := c.funcName(fd)
+		ord := 0
+		ast.Inspect(fd.Body, func(n ast.Node) bool {
+			call, ok := n.(*ast.CallExpr)
+			if !ok {
+				return true
+			}
+			for _, a := range call.Args {
+				u, isAddr := unparen(a).(*ast.UnaryExpr)
+				if !isAddr || u.Op != token.AND {
+					continue
+				}
+				p, okp := c.apath(u.X)
+				if !okp || p.Root != recv || len(p.Steps) == 0 {
+					continue
+				}
+				ord++
+				c.saw(fn)
+				// a later whole-receiver overwrite in the same statement list or an enclosing one
+				lost := false
+				ast.Inspect(fd.Body, func(m ast.Node) bool {
+					as, isA := m.(*ast.AssignStmt)
+					if !isA || as.Pos() < call.End() || len(as.Lhs) != 1 {
+						return true
+					}
+					st, isStar := unparen(as.Lhs[0]).(*ast.StarExpr)
+					if !isStar {
+						return true
+					}
+					if id, isId := unparen(st.X).(*ast.Ident); isId && c.objOf(id) == recv {
+						// unless what is assigned was built from the receiver after the decode (s.F read in between)
+						readBack := false
+						ast.Inspect(fd.Body, func(r ast.Node) bool {
+							if e, isE := r.(ast.Expr); isE && e.Pos() > call.End() && e.End() < as.Pos() {
+								if q, okq := c.apath(e); okq && q.Root == recv && len(q.Steps) > 0 && q.Steps[0] == p.Steps[0] {
+									readBack = true
+								}
+							}
+							return true
+						})
+						if !readBack {
+							lost = true
+						}
+					}
+					return true
+				})
+				c.ob(rule, fmt.Sprintf("%s:&%s#%d", fn, exprString(u.X), ord), call.Pos(), !lost,
+					"the input is decoded into "+exprString(u.X)+" and the whole receiver is then overwritten with another value: the member just decoded is lost")
+			}
+			return true
+		})
+	}
+}
+
+// ruleCopyHasRoom (C14 and the codecs in general): copy(dst, src) where dst is a local made with the constant length 0.
+func ruleCopyHasRoom(c *Ctx) {
+	const rule = "copy-has-room"
+	n := 0
+	for _, fd := range c.allFuncDecls() {
+		if fd.Body == nil {
+			continue
+		}
+		fn := c.funcName(fd)
+		defs := c.localDefs(fd)
+		ast.Inspect(fd.Body, func(nd ast.Node) bool {
+			call, ok := nd.(*ast.CallExpr)
+			if !ok || !c.isBuiltin(call, "copy") || len(call.Args) != 2 {
+				return true
+			}
+			n++
+			c.saw(fn)
+			bad := false
+			if id, isId := unparen(call.Args[0]).(*ast.Ident); isId {
+				for _, d := range defs[c.objOf(id)] {
+					if mk, isMk := unparen(d).(*ast.CallExpr); isMk && c.isBuiltin(mk, "make") && len(mk.Args) >= 2 {
+						if tv, has := c.Info.Types[mk.Args[1]]; has && tv.Value != nil && tv.Value.String() == "0" {
+							bad = true
+						}
+					}
+				}
+			}
+			c.ob(rule, fmt.Sprintf("%s:copy(%s)#%d", fn, exprString(call.Args[0]), n), call.Pos(), !bad,
+				"the destination of copy was made with length 0 (only its capacity is set): nothing is copied and the data is lost")
+			return true
+		})
+	}
+	if n == 0 {
+		c.ob(rule, "no-copy-calls", token.NoPos, true, "").Trivial = true
+	}
+}
+
+// ruleEntryParamsUsed (C05/C10): exported package functions named Expand* / Resolve* mention each named parameter.
+func ruleEntryParamsUsed(c *Ctx) {
+	const rule = "entry-params-used"
+	for _, f := range c.entryPoints() {
+		fd := c.decl(f)
+		if fd == nil || fd.Body == nil {
+			continue
+		}
+		fn := c.funcName(fd)
+		c.saw(fn)
+		for i := 0; ; i++ {
+			p := c.paramObj(fd, i)
+			if p == nil {
+				break
+			}
+			if p.Name() == "_" || p.Name() == "" {
+				continue
+			}
+			used := false
+			ast.Inspect(fd.Body, func(n ast.Node) bool {
+				if id, ok := n.(*ast.Ident); ok && c.objOf(id) == p {
+					used = true
+				}
+				return true
+			})
+			c.ob(rule, fn+":"+p.Name(), fd.Pos(), used,
+				"the entry point never uses its parameter "+p.Name()+": the caller's "+p.Name()+" is silently replaced by a default (a sibling entry point taking the same arguments behaves differently)")
+		}
+	}
+}
+
+// ruleLoadedDocAnyJSON (C18/C05): in the function that calls the document loader and in the package functions it
+// calls, the value json.Unmarshal decodes the loaded bytes into is an interface{}.
+func ruleLoadedDocAnyJSON(c *Ctx) {
+	const rule = "loaded-doc-any-json"
+	var home *types.Func
+	for _, fd := range c.allFuncDecls() {
+		if fd.Body == nil {
+			continue
+		}
+		ast.Inspect(fd.Body, func(n ast.Node) bool {
+			if call, ok := n.(*ast.CallExpr); ok && c.isDocLoaderCall(call) {
+				home, _ = c.Info.Defs[fd.Name].(*types.Func)
+			}
+			return true
+		})
+	}
+	if home == nil {
+		c.undecided(rule, "loader-call", token.NoPos, "the function calling the document loader was not found")
+		return
+	}
+	// the method through which documents are requested (it consults the cache), and what it calls
+	set := map[*types.Func]bool{home: true}
+	for _, g := range c.pkgFuncs() {
+		for _, h := range c.staticCallees(g) {
+			if h == home && g.Type().(*types.Signature).Recv() != nil {
+				set[g] = true
+			}
+		}
+	}
+	n := 0
+	for f := range set {
+		fd := c.decl(f)
+		if fd == nil || fd.Body == nil {
+			continue
+		}
+		fn := c.funcName(fd)
+		ast.Inspect(fd.Body, func(nd ast.Node) bool {
+			call, ok := nd.(*ast.CallExpr)
+			if !ok || !c.isPkgFunc(call, "encoding/json", "Unmarshal") || len(call.Args) != 2 {
+				return true
+			}
+			u, isAddr := unparen(call.Args[1]).(*ast.UnaryExpr)
+			if !isAddr || u.Op != token.AND {
+				return true
+			}
+			n++
+			c.saw(fn)
+			t := c.typeOf(u.X)
+			it, isIface := t.Underlying().(*types.Interface)
+			c.ob(rule, fmt.Sprintf("%s:decode-target#%d", fn, n), call.Pos(), isIface && it.Empty(),
+				"the loaded document is decoded into a "+t.String()+": a document whose top-level value is an array, a scalar or null fails to load (while the same document pre-loaded in a cache resolves), so results depend on the cache")
+			return true
+		})
+	}
+	if n == 0 {
+		c.ob(rule, "decode-site", token.NoPos, false, "no json.Unmarshal of the loaded bytes found next to the document loader call")
+	}
+}
+
+func init() {
+	registerRule("designated-before-decoded", 1, "on every path of the reference resolver the value located for a reference is tested for designating nothing before it is decoded into the target", ruleDesignatedBeforeDecoded)
+}
+
+// ruleDesignatedBeforeDecoded (C05/C08): on the effect normal form of the reference resolver (helpers inlined),
+// every call of swag.DynamicJSONToStruct is made with a value for which the package's "designates nothing" test
+// (a bool function over an interface{} that the resolver consults) is known to have answered false on that path.
+// A path that reaches the decoding around the test turns "designates nothing" into a zero value with a nil error.
+func ruleDesignatedBeforeDecoded(c *Ctx) {
+	const rule = "designated-before-decoded"
+	fam := c.family()
+	if !fam.ok() || fam.resolveRef == nil {
+		c.undecided(rule, "family", token.NoPos, "reference resolver not found by role")
+		return
+	}
+	fd := c.decl(fam.resolveRef)
+	fn := c.funcName(fd)
+	c.saw(fn)
+	isNothingTest := func(f *types.Func) bool {
+		if f == nil || f.Pkg() != c.Types {
+			return false
+		}
+		sig := f.Type().(*types.Signature)
+		if sig.Recv() != nil || sig.Params().Len() != 1 || sig.Results().Len() != 1 {
+			return false
+		}
+		it, isIface := sig.Params().At(0).Type().Underlying().(*types.Interface)
+		b, isBool := sig.Results().At(0).Type().Underlying().(*types.Basic)
+		return isIface && it.Empty() && isBool && b.Kind() == types.Bool
+	}
+	isDecode := func(f *types.Func) bool {
+		return f != nil && f.Pkg() != nil && f.Pkg().Path() == "github.com/go-openapi/swag" && f.Name() == "DynamicJSONToStruct"
+	}
+	var loadFn *types.Func
+	for _, g := range c.allFuncDecls() {
+		if g.Body == nil {
+			continue
+		}
+		ast.Inspect(g.Body, func(n ast.Node) bool {
+			if call, ok := n.(*ast.CallExpr); ok && c.isDocLoaderCall(call) {
+				loadFn, _ = c.Info.Defs[g.Name].(*types.Func)
+			}
+			return true
+		})
+	}
+	paths, unsup := c.simulate(fd, func(f *types.Func) bool {
+		if isNothingTest(f) || f == loadFn {
+			return false
+		}
+		// what lies between the resolver and the decoding
+		return c.reaches(f, func(h *types.Func) bool { return isDecode(h) || isNothingTest(h) })
+	})
+	if unsup != "" {
+		c.undecided(rule, fn, fd.Pos(), "outside the fragment the effect normal form supports: "+unsup)
+		return
+	}
+	ndec, ok, why := 0, true, ""
+	for _, p := range paths {
+		for _, e := range p.effs {
+			if e.kind != "call" || len(e.call.args) == 0 {
+				continue
+			}
+			f, _ := e.call.callee.(*types.Func)
+			if !isDecode(f) {
+				continue
+			}
+			ndec++
+			v := e.call.args[0]
+			tested := false
+			for _, cd := range p.conds {
+				sc, isCall := cd.v.(svCall)
+				if !isCall || !cd.neg || len(sc.args) != 1 {
+					continue
+				}
+				if g, _ := sc.callee.(*types.Func); isNothingTest(g) && svEqual(sc.args[0], v) {
+					tested = true
+				}
+			}
+			if !tested && ok {
+				ok = false
+				why = "on some path the located value " + svString(v) + " is decoded into the target without the designates-nothing test having answered false for it: a reference that designates nothing (the empty reference to a null document, a nil typed root) resolves to a zero value with a nil error"
+			}
+		}
+	}
+	if ndec == 0 {
+		c.ob(rule, fn+":decodes", fd.Pos(), false, "the reference resolver never reaches swag.DynamicJSONToStruct")
+		return
+	}
+	c.ob(rule, fn+":every-decode-tested", fd.Pos(), ok, why)
+}
